@@ -436,6 +436,12 @@ func (module *InMemoryStorage) addConsumerOffset(request *protocol.StorageReques
 		return
 	}
 
+	// The group's newest commit time: the largest timestamp among the commits stored for any of its partitions. It only
+	// moves forward, so that an older commit arriving later (another partition, a backfill) cannot expire the group early
+	if request.Timestamp > consumerMap.lastCommit {
+		consumerMap.lastCommit = request.Timestamp
+	}
+
 	var partitionLag *protocol.Lag
 	if destination.isAppend() {
 		// Calculate the lag against the brokerOffset
@@ -446,7 +452,6 @@ func (module *InMemoryStorage) addConsumerOffset(request *protocol.StorageReques
 			partitionLag.Value = uint64(brokerOffset - request.Offset)
 		}
 		requestLogger.Debug("ok", zap.Uint64("lag", partitionLag.Value))
-		consumerMap.lastCommit = request.Timestamp
 	}
 
 	destination = module.mergeFrequentCommitIntoPrevious(destination, request, requestLogger)
